@@ -286,9 +286,18 @@ func (w *World) runHarness(h *Harness, workers int, solverKind string, nvalid in
 				}
 				res.Inconcl = append(res.Inconcl, pr.Inconcl...)
 				for _, ce := range pr.CEs {
+					// keep counterexamples that differ in their structured choices: some
+					// may depend on idealised values and not replay, others will
 					key := ce.Obligation + "|" + ce.Known
-					ceSeen[key]++
-					if ceSeen[key] <= 3 {
+					ckey := key
+					for _, n := range ce.ND {
+						if n.Kind == "choice" {
+							ckey += fmt.Sprintf("|%v", n.Val)
+						}
+					}
+					ceSeen[ckey]++
+					if ceSeen[ckey] <= 1 && ceSeen[key] < 12 {
+						ceSeen[key]++
 						res.CEs = append(res.CEs, ce)
 					}
 				}
